@@ -12,7 +12,7 @@ git apply $OUT/patch.diff || { echo "patch does not apply" >> $LOG; exit 1; }
 echo "== suite with change" >> $LOG
 timeout 2400 cargo test --workspace --no-fail-fast --offline > /tmp/confirm_${ID}_suite.log 2>&1
 grep -E "^test .* FAILED|^test result: FAILED" /tmp/confirm_${ID}_suite.log >> $LOG
-echo "suite_failed_tests: $(grep -E '^test .* FAILED' /tmp/confirm_${ID}_suite.log | grep -v asymmetric_diamond_projection_pattern | wc -l)" >> $LOG
+echo "suite_failed_tests: $(grep -E '^test .* FAILED' /tmp/confirm_${ID}_suite.log | grep -v 'asymmetric_diamond_projection_pattern\|^test result' | wc -l)" >> $LOG
 git apply $OUT/demo/demo.diff || { echo "demo does not apply" >> $LOG; exit 1; }
 echo "== demo with change" >> $LOG
 timeout 1200 cargo test --offline -p $PKG $EXTRA --test $DEMO > /tmp/confirm_${ID}_demo_with.log 2>&1; echo "demo_with_exit: $?" >> $LOG
